@@ -147,7 +147,9 @@ def pvl_flavor(
         try:
             pvl.dumps(some_pvl, **decenc)
             encodes = True
-        except (LexerError, ParseError, ValueError) as err:
+        except (LexerError, ParseError, ValueError, TypeError) as err:
+            # Encoders refuse what they cannot write with ValueError
+            # or TypeError.
             logging.error(f"{dialect} encode error {filename} {err}")
             encodes = False
     except (LexerError, ParseError) as err:
